@@ -114,7 +114,7 @@ func Structured(r *hx.Rng) (d Desc, stray, degen string) {
 		d.Attrs = append(d.Attrs, col)
 	}
 	// primitives: every referenced vertex occurs; corners of one primitive are distinct vertices
-	np := r.Range(1, 5)
+	np := r.Range(1, 6)
 	if len(refs) > np*isz {
 		np = (len(refs) + isz - 1) / isz
 	}
@@ -164,19 +164,7 @@ func Structured(r *hx.Rng) (d Desc, stray, degen string) {
 	}
 	// materials: consistent ranges, often several
 	if topo == modeling.TriangleTopology && r.Chance(1, 2) {
-		prims := len(d.Idx) / 3
-		left := prims
-		nr := r.Range(2, 4)
-		for i := 0; i < nr; i++ {
-			c := 0
-			if i == nr-1 {
-				c = left
-			} else if left > 0 && !r.Chance(1, 4) {
-				c = r.Range(0, left)
-			}
-			left -= c
-			d.Mats = append(d.Mats, Mat{Count: c, ID: r.Intn(3)})
-		}
+		d.Mats = randMats(r, len(d.Idx)/3)
 	}
 	return d, stray, degen
 }
